@@ -15,6 +15,7 @@ VERIF = os.path.dirname(os.path.dirname(os.path.abspath(__file__)))
 REPO = os.environ.get("VERIF_REPO", "/repo")
 GOENV = dict(os.environ, GOFLAGS="-mod=mod", GOPROXY="off", GOSUMDB="off", GOTOOLCHAIN="local")
 GOVC = os.path.join(VERIF, "bin", "govc")
+EXTRA_OVERLAY = {}
 
 
 def build_govc():
@@ -145,6 +146,7 @@ def run_replay(pid, outdir, n, plan):
             repl[tf] = empty
     for m in masks:
         repl[os.path.join(pkgdir, m)] = empty
+    repl.update(EXTRA_OVERLAY)  # self-test mutants are replayed against the mutated sources
     ov = os.path.join(rdir, "overlay.json")
     with open(ov, "w") as f:
         json.dump({"Replace": repl}, f)
@@ -214,6 +216,8 @@ def main():
         return 1 if "REPLAY-CONFIRMED" in (r.stdout + r.stderr) else 0
 
     build_govc()
+    if args.overlay:
+        EXTRA_OVERLAY.update(json.load(open(args.overlay)))
     outdir = args.out or os.path.join(VERIF, "out", pid)
     shutil.rmtree(outdir, ignore_errors=True)
     os.makedirs(outdir, exist_ok=True)
